@@ -85,6 +85,8 @@ class E(Ext):
             return stub(lambda eng: False)
         if name == "shape":
             return (1, 1)
+        if name == "size":
+            return stub(lambda eng, *a: (1, 1))
         raise Unsupported("MX.%s" % name)
 
     def sym_unop(self, eng, op):
@@ -144,6 +146,9 @@ def denote(t, env):
     if k == "const":
         v = t.value
         return z3.ToReal(v) if ops.is_int_sort(v) else v
+    if k == "chain":
+        expr, deps, ders = t.deps
+        return z3.Sum([partial(expr, dp, env) * (denote(dr, env) if isinstance(dr, E) else _val(dr)) for dp, dr in zip(deps, ders)])
     d = [denote(x, env) for x in t.deps]
     if k == "OP_ADD":
         return d[0] + d[1]
@@ -170,6 +175,98 @@ def denote(t, env):
             return z3.If(d[0] == 0, z3.RealVal(0), z3.If(u == 0, z3.RealVal(1), u))
         return u
     raise Unsupported("denotation of %s" % k)
+
+
+# ------------------------------------------------------------------------------------------------ differentiation (chain rule)
+def symbols_of(t):
+    """the symbols a term depends on, in first-occurrence order (ca.symvar)"""
+    out = []
+
+    def go(x):
+        if not isinstance(x, E):
+            return
+        if x.kind == "sym":
+            if not any(x is o for o in out):
+                out.append(x)
+            return
+        if x.kind == "chain":
+            for d in list(x.deps[1]) + list(x.deps[2]):
+                go(d)
+            go(x.deps[0])
+            return
+        for d in x.deps:
+            go(d)
+    go(t)
+    return out
+
+
+def partial(t, s, env):
+    """d t / d s (s a symbol term) as a z3 real, at env"""
+    if not isinstance(t, E) or t.kind == "const":
+        return z3.RealVal(0)
+    k = t.kind
+    if k == "sym":
+        return z3.RealVal(1) if t is s else z3.RealVal(0)
+    if k in ("OP_ADD", "OP_SUB", "OP_MUL", "OP_DIV"):
+        a, b = t.deps
+        da, db = partial(a, s, env), partial(b, s, env)
+        va, vb = denote(a, env), denote(b, env)
+        if k == "OP_ADD":
+            return da + db
+        if k == "OP_SUB":
+            return da - db
+        if k == "OP_MUL":
+            return da * vb + va * db
+        return (da * vb - va * db) / (vb * vb)
+    if k == "OP_NEG":
+        return -partial(t.deps[0], s, env)
+    raise Unsupported("partial derivative of %s" % k)
+
+
+class VecT(Ext):
+    """ca.vertcat(*terms): a column of scalar terms"""
+    type_names = ("MX",)
+
+    def __init__(self, items):
+        self.items = list(items)
+
+
+class JacT(Ext):
+    """ca.jacobian(expr, vertcat(deps)); also the ca.Function J built from it, its sparsity, and J(deps)"""
+    type_names = ("MX", "Function")
+
+    def __init__(self, expr, deps):
+        self.expr, self.deps = expr, list(deps)
+
+    def sym_getattr(self, eng, name):
+        if name == "sparsity_out":
+            return stub(lambda eng, k: self)
+        if name == "has_nz":
+            # structural non-zero: the expression mentions the symbol
+            return stub(lambda eng, i, j: any(self.deps[j] is x for x in symbols_of(self.expr)))
+        raise Unsupported("jacobian.%s" % name)
+
+    def sym_call(self, eng, args, kwargs):
+        return self
+
+
+def chain_module_functions():
+    def function(eng, c, a, k):
+        outs = eng.iterate(a[2])
+        if len(outs) == 1 and isinstance(outs[0], JacT):
+            return outs[0]
+        raise Unsupported("ca.Function of something else than a jacobian")
+    fn = VClass("Function")
+    fn.constructor = function
+
+    def mtimes(eng, j, v):
+        if isinstance(j, JacT) and isinstance(v, VecT) and len(v.items) == len(j.deps):
+            return E("chain", j.expr, tuple(j.deps), tuple(v.items))
+        raise Unsupported("mtimes of these operands")
+    dm = VClass("DM")
+    dm.attrs["zeros"] = stub(lambda eng, *a: const(z3.RealVal(0)))
+    return {"symvar": stub(lambda eng, t: VList(symbols_of(t))), "vertcat": stub(lambda eng, *a: VecT(a)),
+            "jacobian": stub(lambda eng, e, v: JacT(e, v.items if isinstance(v, VecT) else [v])), "Function": fn, "mtimes": stub(mtimes), "DM": dm}
 
 
 def casadi_module():
